@@ -35,6 +35,31 @@ def dotChain (acc : Ulvs α) : List (M α) → Except TErr (Ulvs α)
       let a ← dotU acc L
       dotChain (.mat a) rest
 
+/-- more fuel does not change a path that was found -/
+theorem ulvsPath_mono (selist : List (Nat × Nat)) (sedn : Nat) :
+    ∀ (fuel fuel' : Nat), fuel ≤ fuel' → ∀ (seup sedown : Nat) (p : List (Nat × Nat)),
+      ulvsPath selist sedn fuel seup sedown = some p → ulvsPath selist sedn fuel' seup sedown = some p
+  | 0, _, _, _, _, _, h => by simp [ulvsPath] at h
+  | fuel + 1, 0, hle, _, _, _, _ => by omega
+  | fuel + 1, fuel' + 1, hle, seup, sedown, p, h => by
+      unfold ulvsPath at h ⊢
+      split
+      · rename_i he; rw [if_pos he] at h; exact h
+      · rename_i hne
+        rw [if_neg hne] at h
+        cases hfs : findse selist sedown with
+        | error e => rw [hfs] at h; cases h
+        | ok r =>
+            rw [hfs] at h
+            simp only at h ⊢
+            cases hr : selist[r]? with
+            | none => rw [hr] at h; cases h
+            | some row =>
+                rw [hr] at h
+                simp only [Option.map_eq_some_iff] at h ⊢
+                obtain ⟨p', hp', rfl⟩ := h
+                exact ⟨p', ulvsPath_mono selist sedn fuel fuel' (by omega) sedown row.2 p' hp', rfl⟩
+
 /-- the path is a walk down the superelement tree from `seup` to `sedn` -/
 theorem ulvsPath_spec (selist : List (Nat × Nat)) (sedn : Nat) :
     ∀ (fuel seup sedown : Nat) (path : List (Nat × Nat)), ulvsPath selist sedn fuel seup sedown = some path →
@@ -357,6 +382,64 @@ theorem addulvs_consistent (mk : Masks) (d : NasT α) (ulvs : Option (List (Nat 
         · exact hall se' hmem
   have hinv0 : Inv init := fun se p hp => Or.inr hp
   exact (fold ses init l hinv0 h).2
+
+/-- the chain can be cut anywhere: multiplying through `l₁ ++ l₂` is multiplying through `l₁` and continuing from
+that product through `l₂` - with `formulvs_chain_is_product` and the walk of `ulvsPath_spec` this is
+`ULVS(seup → sedn) = (ULVS(seup → b) · L₁) · L₂ …` for an SE `b` on the path, `L_i` the levels below `b` -/
+theorem dotChain_append (acc : Ulvs α) (l₁ l₂ : List (M α)) :
+    dotChain acc (l₁ ++ l₂) = (dotChain acc l₁ >>= fun a => dotChain a l₂) := by
+  induction l₁ generalizing acc with
+  | nil => rfl
+  | cons L t ih =>
+      simp only [List.cons_append, dotChain]
+      cases dotU acc L with
+      | error e => rfl
+      | ok a => simp only [bind, Except.bind]; exact ih (.mat a)
+
+/-- a path through an intermediate SE is the concatenation of the two partial paths -/
+theorem ulvsPath_split (selist : List (Nat × Nat)) (sedn b : Nat) :
+    ∀ (fuel seup sedown : Nat) (p₁ : List (Nat × Nat)), b ≠ sedn →
+      ulvsPath selist b fuel seup sedown = some p₁ → (∀ e ∈ p₁, e.2 = sedn → e.2 = b) →
+      ∀ (r : Nat) (row : Nat × Nat), findse selist b = .ok r → selist[r]? = some row →
+      ∀ (fuel₂ : Nat) (p₂ : List (Nat × Nat)), ulvsPath selist sedn fuel₂ b row.2 = some p₂ →
+      ulvsPath selist sedn (fuel + fuel₂) seup sedown = some (p₁ ++ p₂)
+  | 0, _, _, _, _, h, _, _, _, _, _, _, _, _ => by simp [ulvsPath] at h
+  | fuel + 1, seup, sedown, p₁, hb, h, hno, r, row, hf, hrow, fuel₂, p₂, h₂ => by
+      unfold ulvsPath at h
+      have hfuel : fuel + 1 + fuel₂ = (fuel + fuel₂) + 1 := by omega
+      rw [hfuel]
+      split at h
+      · rename_i he
+        simp only [Option.some.injEq] at h
+        subst h
+        subst he
+        unfold ulvsPath
+        rw [if_neg hb, hf]
+        simp only [hrow]
+        have := ulvsPath_mono selist sedn fuel₂ (fuel + fuel₂) (by omega) sedown row.2 p₂ h₂
+        rw [this]
+        rfl
+      · rename_i hne
+        cases hfs : findse selist sedown with
+        | error e => rw [hfs] at h; cases h
+        | ok r' =>
+            rw [hfs] at h
+            simp only at h
+            cases hr' : selist[r']? with
+            | none => rw [hr'] at h; cases h
+            | some row' =>
+                rw [hr'] at h
+                simp only [Option.map_eq_some_iff] at h
+                obtain ⟨p', hp', rfl⟩ := h
+                have hsd : sedown ≠ sedn := by
+                  intro he
+                  exact hne (hno (seup, sedown) List.mem_cons_self he)
+                unfold ulvsPath
+                rw [if_neg hsd, hfs]
+                simp only [hr']
+                rw [ulvsPath_split selist sedn b fuel sedown row'.2 p' hb hp'
+                  (fun e he => hno e (List.mem_cons_of_mem _ he)) r row hf hrow fuel₂ p₂ h₂]
+                rfl
 
 end ulvs
 /-! ## non-vacuity: SE 10 (a-set: scalar points 1, 2) upstream of the residual (rows 5, 6, 7; `phg` given) -/
